@@ -33,7 +33,7 @@ def rename_pvt(evs):
     for e in evs:
         if e["e"] == "call.create": n = e["nthr"]
         e = dict(e)
-        for k in ("d", "q", "arg", "t", "a", "b", "cur"):
+        for k in ("d", "q", "arg", "t", "a", "b", "cur", "s"):
             if k in e and n is not None and e[k] == n and not (k in ("a", "b") and e["e"].startswith(("dec.", "bsend.", "cbsend.", "done."))):
                 e[k] = PVT
         out.append(e)
@@ -51,6 +51,6 @@ def validate(ctx, evs, d, tag, keep, cfg="TpTrace.cfg", module="TpTrace", timeou
     m = re.search(r'"REJECTED_AT_LINE",\s*(\d+)', r.out)
     if m:
         k = int(m.group(1)); info["rejected_at"] = k
-        info["context"] = sel[max(0, k - 6):k + 1]
+        info["context"] = sel[max(0, k - 7):k]  # the last entry is the event that was refused
     info["tlc"] = (r.violation or "") + "\n" + r.out[-1500:]
     return False, info, r
